@@ -443,6 +443,8 @@ type streamReaderWithConvert[T any] struct {
 	sr iStreamReader
 
 	convert func(any) (T, error)
+
+	panicked bool // the convert function has panicked: the stream has ended with that error
 }
 
 func newStreamReaderWithConvert[T any](origin iStreamReader, convert func(any) (T, error)) *StreamReader[T] {
@@ -482,7 +484,21 @@ func StreamReaderWithConvert[T, D any](sr *StreamReader[T], convert func(T) (D, 
 	return newStreamReaderWithConvert(sr, c)
 }
 
-func (srw *streamReaderWithConvert[T]) recv() (T, error) {
+func (srw *streamReaderWithConvert[T]) recv() (t T, err error) {
+	if srw.panicked {
+		return t, io.EOF
+	}
+	// the convert function is code of whoever built this reader, evaluated lazily in the goroutine of whoever reads: a
+	// panic in it is the last item of the stream, an error, as it is when a forwarding goroutine pulls the reader
+	// (toStream)
+	defer func() {
+		if panicErr := recover(); panicErr != nil {
+			srw.panicked = true
+			var zero T
+			t, err = zero, safe.NewPanicErr(panicErr, debug.Stack())
+		}
+	}()
+
 	for {
 		out, err := srw.sr.recvAny()
 
